@@ -139,6 +139,34 @@ func rulePipeline(c *Ctx) {
 					}
 				}
 			}
+			// or: the bound is min(len(ranked), maximum) under maximum > 0
+			if mc, ok := stripConv(sl.High).(*ssa.Call); ok && !guard {
+				if bi, ok := mc.Call.Value.(*ssa.Builtin); ok && bi.Name() == "min" {
+					hasLen, hasMax := false, false
+					for _, a := range mc.Call.Args {
+						if lc, ok := a.(*ssa.Call); ok {
+							if lb, ok := lc.Call.Value.(*ssa.Builtin); ok && lb.Name() == "len" && (lc.Call.Args[0] == sl.X || sameLoad(lc.Call.Args[0], sl.X)) {
+								hasLen = true
+								continue
+							}
+						}
+						if sliceHasFieldRead(backSlice(a), limitField) {
+							hasMax = true
+						}
+					}
+					positive := false
+					for _, cond := range controlConds(sl.Block()) {
+						if bin, ok := cond.(*ssa.BinOp); ok && sliceHasFieldRead(backSlice(bin.X), limitField) {
+							if k, ok := bin.Y.(*ssa.Const); ok && k.Value != nil {
+								if (bin.Op == token.GTR && k.Int64() == 0) || (bin.Op == token.GEQ && k.Int64() == 1) {
+									positive = true
+								}
+							}
+						}
+					}
+					guard = hasLen && hasMax && positive
+				}
+			}
 			if !guard {
 				okShape = false
 				why = "the truncation is not guarded by len(ranked) > maximum"
@@ -624,27 +652,8 @@ func ruleEditRange(c *Ctx) {
 					continue
 				}
 				arg := call.Common().Args[1]
-				if phi, ok := arg.(*ssa.Phi); ok {
-					for _, cond := range phiConds(phi) {
-						bin, ok := cond.(*ssa.BinOp)
-						if !ok || (bin.Op != token.GTR && bin.Op != token.GEQ && bin.Op != token.LSS && bin.Op != token.LEQ) {
-							continue
-						}
-						for _, e := range phi.Edges {
-							if (e == bin.Y || e == bin.X) && derivesFromCursor(e, posParam) {
-								clamped = true
-							}
-						}
-					}
-				}
-				if mc, ok := arg.(*ssa.Call); ok {
-					if bi, ok := mc.Call.Value.(*ssa.Builtin); ok && bi.Name() == "min" {
-						for _, a := range mc.Call.Args {
-							if derivesFromCursor(a, posParam) {
-								clamped = true
-							}
-						}
-					}
+				if clampedToCursor(arg, func(v ssa.Value) bool { return derivesFromCursor(v, posParam) }, 0) {
+					clamped = true
 				}
 			}
 			c.check(clamped, "I-RANGE", fname, "start clamped to the cursor", al.Pos(),
@@ -690,7 +699,11 @@ func resolveLocalFunc(v ssa.Value) *ssa.Function {
 		return nil
 	}
 	cell := ld.X
-	if fv, ok := cell.(*ssa.FreeVar); ok {
+	for range 6 {
+		fv, ok := cell.(*ssa.FreeVar)
+		if !ok {
+			break
+		}
 		cell = freeVarBinding(fv)
 	}
 	al, ok := cell.(*ssa.Alloc)
@@ -709,4 +722,83 @@ func resolveLocalFunc(v ssa.Value) *ssa.Function {
 		return found
 	}
 	return nil
+}
+
+// clampedToCursor: v is min(x, cursor), or a phi choosing between x and the cursor under a comparison of the
+// two, or the corresponding result of a helper whose every return is clamped that way (the cursor being the
+// helper's parameter bound to a cursor-derived argument).
+func clampedToCursor(v ssa.Value, isCursor func(ssa.Value) bool, depth int) bool {
+	if depth > 3 {
+		return false
+	}
+	v = stripConv(v)
+	switch x := v.(type) {
+	case *ssa.Phi:
+		for _, cond := range phiConds(x) {
+			bin, ok := cond.(*ssa.BinOp)
+			if !ok || (bin.Op != token.GTR && bin.Op != token.GEQ && bin.Op != token.LSS && bin.Op != token.LEQ) {
+				continue
+			}
+			for _, e := range x.Edges {
+				if (e == bin.Y || e == bin.X) && isCursor(e) {
+					return true
+				}
+			}
+		}
+	case *ssa.Extract:
+		if call, ok := x.Tuple.(*ssa.Call); ok {
+			return helperResultClamped(call, x.Index, isCursor, depth)
+		}
+	case *ssa.Call:
+		if bi, ok := x.Call.Value.(*ssa.Builtin); ok && bi.Name() == "min" {
+			for _, a := range x.Call.Args {
+				if isCursor(a) {
+					return true
+				}
+			}
+			return false
+		}
+		return helperResultClamped(x, 0, isCursor, depth)
+	}
+	return false
+}
+
+func helperResultClamped(call *ssa.Call, idx int, isCursor func(ssa.Value) bool, depth int) bool {
+	h := call.Call.StaticCallee()
+	if h == nil || h.Blocks == nil || !inModule(h) {
+		return false
+	}
+	cursorParams := map[ssa.Value]bool{}
+	for i, p := range h.Params {
+		if i < len(call.Call.Args) && isCursor(call.Call.Args[i]) {
+			cursorParams[p] = true
+		}
+	}
+	if len(cursorParams) == 0 {
+		return false
+	}
+	inner := func(v ssa.Value) bool { return cursorParams[stripConv(v)] }
+	n := 0
+	for _, b := range h.Blocks {
+		r, ok := b.Instrs[len(b.Instrs)-1].(*ssa.Return)
+		if !ok || idx >= len(r.Results) {
+			continue
+		}
+		rv := unspillResult(r.Results[idx], b)
+		// a return that reports failure with a constant result beside it (return 0, false) carries no range start
+		if k, isConst := rv.(*ssa.Const); isConst && len(r.Results) > 1 {
+			if ok2, isC := r.Results[len(r.Results)-1].(*ssa.Const); isC && ok2.Value != nil && ok2.Value.String() == "false" {
+				_ = k
+				continue
+			}
+		}
+		n++
+		if inner(rv) {
+			continue // the cursor itself
+		}
+		if !clampedToCursor(rv, inner, depth+1) {
+			return false
+		}
+	}
+	return n > 0
 }
